@@ -727,11 +727,14 @@ Fixpoint resolve_body (seg : str) (q' : list str) (p : path) (j : nat) (b : list
   | x :: r => if is_member seg x then resolve_stmt q' (p ++ [j]) x else resolve_body seg q' p (S j) r
   end.
 
-Definition resolve (q : list str) (m : module) : option (path * pnode) :=
+(* positions counted from [root] (the module itself is always position []) *)
+Definition resolve_at (root : path) (q : list str) (m : module) : option (path * pnode) :=
   match q with
   | [] => Some ([], PMod m)
-  | seg :: q' => resolve_body seg q' [] 0 m
+  | seg :: q' => resolve_body seg q' root 0 m
   end.
+
+Definition resolve (q : list str) (m : module) : option (path * pnode) := resolve_at [] q m.
 
 (* the position and PyAst content of what find_in_ast returned, for comparison with [resolve] *)
 Definition node_view (n : anode) : path * pnode :=
@@ -741,8 +744,10 @@ Definition node_view (n : anode) : path * pnode :=
   | NArg a => (aa_id a, PArg (erase_arg a))
   end.
 
-Definition find_view (search : loc) (m : module) : outcome (option (path * pnode)) :=
-  do r <- find_in_ast search (annotate m); Ok (option_map node_view r).
+Definition find_view_at (root : path) (search : loc) (m : module) : outcome (option (path * pnode)) :=
+  do r <- find_in_ast search (annotate_at root m); Ok (option_map node_view r).
+
+Definition find_view (search : loc) (m : module) : outcome (option (path * pnode)) := find_view_at [] search m.
 
 (* node at a tree position (used by the harness to name a replacement node) *)
 Definition find_arg_by_id (p : path) (l : list aarg) : option aarg :=
